@@ -1749,6 +1749,11 @@ class Cat(Funsor, metaclass=CatMeta):
 def eager_cat(name, parts, part_name):
     if len(parts) == 1:
         return parts[0](**{part_name: name})
+    if name != part_name and any(name in part.inputs for part in parts):
+        # The new name is also a free input of a part: concatenate first,
+        # then rename, which takes the diagonal.
+        result = eager_cat_homogeneous(part_name, part_name, *parts)
+        return result(**{part_name: name})
     return eager_cat_homogeneous(name, part_name, *parts)
 
 
